@@ -49,6 +49,52 @@ def _is_read_index(name: ast.Name, root: ast.AST) -> bool:
     return False
 
 
+def persist_after_step_rule(idx: Index, res: Result, rule: str = "PERSIST") -> None:
+    """Shared by C20 and C19: on the CFG of every stepping handler (and of the streaming generator) every path from a run_step() call to the
+    end of the request passes save_instance() (or a server helper that calls it), unless no adapter is configured."""
+    # every stepping request externalises the instance after the step: a step the client has seen is in the external state
+    nstep = 0
+    # helpers of the server that externalise (one level): calling one of them counts as save_instance()
+    savers = {"save_instance"}
+    for fi in idx.all_funcs("BPTK_Py/server/"):
+        if fi.cls == "BptkServer" and not any(call_name(c) == "run_step" for c in iter_calls(fi.node)) and \
+                any(call_name(c) == "save_instance" for c in iter_calls(fi.node)) and not fi.node.name.endswith("_resource"):
+            savers.add(fi.node.name)
+    for fi in idx.all_funcs("BPTK_Py/server/"):
+        if fi.cls != "BptkServer" or not any(call_name(c) == "run_step" for c in iter_calls(fi.node)):
+            continue
+        cfg = build_cfg(fi.node, fi.qual)
+
+        def has_call(node_ast, name):
+            return any(call_name(c) == name for c in iter_calls(node_ast)) if node_ast is not None else False
+
+        def tr(node: Node, fact, label):
+            if node.kind == "stmt" and label != "exc":
+                if has_call(node.ast, "run_step"):
+                    return ["stepped"]
+                if any(has_call(node.ast, sv_) for sv_ in savers):
+                    return ["clean"]
+            if node.kind == "test" and "_external_state_adapter" in src(node.ast) and label == "false" and "!=" in src(node.ast).replace("is not", "!="):
+                return ["clean"]         # no external state configured: nothing to externalise
+            if node.kind == "test" and "_external_state_adapter" in src(node.ast) and label == "true" and ("==" in src(node.ast) or " is None" in src(node.ast)) \
+                    and "!=" not in src(node.ast) and "is not" not in src(node.ast):
+                return ["clean"]
+            return [fact]
+        flow = Flow(cfg, ["clean"], tr)
+        nstep += 1
+        bad = None
+        for nd in cfg.nodes:
+            if nd.kind == "exit" and "stepped" in flow.at.get(nd.id, set()):
+                bad = nd
+        wit = flow.witness(bad.id, "stepped") if bad is not None else []
+        res.check(rule, "%s externalises the instance after every step" % fi.qual, bad is None, fi.loc(), fi.qual, "run_step ... save_instance",
+                  "%s can answer a request after run_step() without save_instance(): the step the client has seen is not in the external state, "
+                  "so after a crash the instance resumes one or more steps behind. Path: %s" % (fi.qual, " ; ".join(wit[-6:])),
+                  key="%s/%s/step-not-externalised" % (rule, fi.qual))
+    res.floor("stepping handlers", nstep, 3)
+
+
+
 def check_c19(idx: Index, tier: str, res: Result) -> None:
     res.explanation = ("(1) injectivity of the compressed format: the step key must flow into what compress_* emits and must be taken from "
                        "the input by decompress_*, not synthesised; (2) nullability: every value the session writer can put into "
@@ -260,19 +306,42 @@ def check_c19(idx: Index, tier: str, res: Result) -> None:
     dels = [n for n in walk_no_nested(ss.node) if isinstance(n, ast.Delete) or (isinstance(n, ast.Call) and call_name(n) in ("pop", "clear"))]
     res.check("WHOLE", "_set_state removes nothing", not dels, ss.loc(), ss.qual, norm_stmt(dels[0]) if dels else "", "_set_state drops entries of the restored state",
               key="WHOLE/_set_state/filter")
-    # every stepping handler persists after the step
-    for hname in ("_run_step_resource", "_run_steps_resource"):
-        fi = idx.func(SERVER, "BptkServer.%s" % hname)
-        saves = [c for c in iter_calls(fi.node) if call_name(c) == "save_instance"]
-        steps = [c for c in iter_calls(fi.node) if call_name(c) == "run_step"]
-        ok = bool(saves) and all(seq(s) > seq(c) for s in saves for c in steps)
-        res.check("WHOLE", "%s saves the instance after stepping" % hname, ok, fi.loc(), fi.qual, "save_instance(...)",
-                  "%s does not persist the instance after the step(s)" % hname, key="WHOLE/%s/save-after-step" % hname)
+    # every stepping handler persists after the step (on every path, the streamed one included)
+    persist_after_step_rule(idx, res, "WHOLE")
 
 
 # ---------------------------------------------------------------------------
 # C20
 # ---------------------------------------------------------------------------
+
+    # ---- the (de)compressors build their nested tables consistently: the table probed is the table filled ---------------------------------
+    from ..util import probe_create_mismatches, shared_templates
+    npc = 0
+    for name in ("compress_settings", "compress_results", "decompress_settings", "decompress_results"):
+        fi = idx.func(COMPRESS, name)
+        npc += 1
+        mm = probe_create_mismatches(fi.node)
+        res.check("INJECT", "%s creates an entry in the table it probed" % name, not mm, fi.loc(mm[0][0]) if mm else fi.loc(), fi.qual,
+                  "if k not in %s: %s[k] = ..." % (mm[0][1], mm[0][2]) if mm else "if k not in T: T[k] = {}",
+                  "%s tests a key against %s but creates the entry in %s: the entry is created again on every pass (what was collected under it so far "
+                  "is dropped - only the last constant of a scenario survives) or never" % (name, mm[0][1] if mm else "", mm[0][2] if mm else ""),
+                  key="INJECT/%s/probe-create-mismatch" % name)
+    res.floor("(de)compressors examined for probe/create agreement", npc, 4)
+    # ---- the codec is configured by nobody: jsonpickle options are process-wide; sort_keys writes the step-keyed logs in *string* order -----
+    for fi in idx.all_funcs("BPTK_Py/"):
+        for c in iter_calls(fi.node):
+            if call_name(c) in ("set_encoder_options", "set_decoder_options") and any(k.arg == "sort_keys" and not (isinstance(k.value, ast.Constant) and k.value.value is False)
+                                                                                         for k in c.keywords):
+                res.find("RECORD", "RECORD/%s/codec-sort-keys" % fi.qual, fi.loc(c), fi.qual, src(c)[:90],
+                         "%s switches the JSON encoder to sort_keys for the whole process: the step-keyed logs are written, and therefore restored, in string "
+                         "order ('10.0' before '2.0'), so positional results (flat session results) come back permuted after a restore, and jsonpickle's "
+                         "back-references to an object logged for several steps resolve to the wrong object" % fi.qual)
+    # ---- every saved record is its own object ------------------------------------------------------------------------------------------------
+    for fi_, tname, node_, lit_, nested_ in shared_templates(idx, [ADAPTER]):
+        res.find("RECORD", "RECORD/%s/shared-template-%s" % (fi_.qual, tname), fi_.loc(node_), fi_.qual, "%s = %s" % (tname, lit_),
+                 "%s builds the record from the class-level template %s without a deep copy: the nested %s is one object for every save in the "
+                 "process, so overlapping saves of two instances write one instance's file with the other's state" % (fi_.qual, tname, nested_))
+
 
 def check_c20(idx: Index, tier: str, res: Result) -> None:
     res.explanation = ("(1) the state file is replaced atomically (temp file + os.replace); (2) a None from _load_instance (damaged file) is "
@@ -331,46 +400,7 @@ def check_c20(idx: Index, tier: str, res: Result) -> None:
                       % "|".join(sorted(f for f in flags if f.startswith("O_"))), key="ATOMIC/FileAdapter._save_instance/not-truncated")
     res.floor("writers of the state file", nwr, 1)
 
-    # every stepping request externalises the instance after the step: a step the client has seen is in the external state
-    nstep = 0
-    # helpers of the server that externalise (one level): calling one of them counts as save_instance()
-    savers = {"save_instance"}
-    for fi in idx.all_funcs("BPTK_Py/server/"):
-        if fi.cls == "BptkServer" and not any(call_name(c) == "run_step" for c in iter_calls(fi.node)) and \
-                any(call_name(c) == "save_instance" for c in iter_calls(fi.node)) and not fi.node.name.endswith("_resource"):
-            savers.add(fi.node.name)
-    for fi in idx.all_funcs("BPTK_Py/server/"):
-        if fi.cls != "BptkServer" or not any(call_name(c) == "run_step" for c in iter_calls(fi.node)):
-            continue
-        cfg = build_cfg(fi.node, fi.qual)
-
-        def has_call(node_ast, name):
-            return any(call_name(c) == name for c in iter_calls(node_ast)) if node_ast is not None else False
-
-        def tr(node: Node, fact, label):
-            if node.kind == "stmt" and label != "exc":
-                if has_call(node.ast, "run_step"):
-                    return ["stepped"]
-                if any(has_call(node.ast, sv_) for sv_ in savers):
-                    return ["clean"]
-            if node.kind == "test" and "_external_state_adapter" in src(node.ast) and label == "false" and "!=" in src(node.ast).replace("is not", "!="):
-                return ["clean"]         # no external state configured: nothing to externalise
-            if node.kind == "test" and "_external_state_adapter" in src(node.ast) and label == "true" and ("==" in src(node.ast) or " is None" in src(node.ast)) \
-                    and "!=" not in src(node.ast) and "is not" not in src(node.ast):
-                return ["clean"]
-            return [fact]
-        flow = Flow(cfg, ["clean"], tr)
-        nstep += 1
-        bad = None
-        for nd in cfg.nodes:
-            if nd.kind == "exit" and "stepped" in flow.at.get(nd.id, set()):
-                bad = nd
-        wit = flow.witness(bad.id, "stepped") if bad is not None else []
-        res.check("PERSIST", "%s externalises the instance after every step" % fi.qual, bad is None, fi.loc(), fi.qual, "run_step ... save_instance",
-                  "%s can answer a request after run_step() without save_instance(): the step the client has seen is not in the external state, "
-                  "so after a crash the instance resumes one or more steps behind. Path: %s" % (fi.qual, " ; ".join(wit[-6:])),
-                  key="PERSIST/%s/step-not-externalised" % fi.qual)
-    res.floor("stepping handlers", nstep, 3)
+    persist_after_step_rule(idx, res)
 
     # ---- (2) None from the loader -------------------------------------------------------------------------------------
     ld = idx.func(ADAPTER, "FileAdapter._load_instance")
@@ -510,3 +540,11 @@ def check_c20(idx: Index, tier: str, res: Result) -> None:
                and all(isinstance(x, (ast.Pass, ast.Break, ast.Continue, ast.Expr)) for x in h.body)]
     res.check("THREADEXC", "no catch-all that only swallows", not swallow, sim.loc(trys[0]), sim.qual, "except ...: pass",
               "the worker thread swallows every exception without recording it", key="THREADEXC/SdSimulation.__simulate/swallow-all")
+
+    # ---- every save writes its own record: no class-/module-level template shared between overlapping saves ---------------------------------
+    from ..util import shared_templates
+    for fi_, tname, node_, lit_, nested_ in shared_templates(idx, [ADAPTER]):
+        res.find("ATOMIC", "ATOMIC/%s/shared-template-%s" % (fi_.qual, tname), fi_.loc(node_), fi_.qual, "%s = %s" % (tname, lit_),
+                 "%s fills the class-level template %s (shallow copy: the nested %s is shared by all saves of the process): two requests that "
+                 "externalise at the same time can write one instance's file with the other instance's state and id - after a crash that instance is gone"
+                 % (fi_.qual, tname, nested_))
